@@ -79,7 +79,7 @@ template<class F> static void run(int n)
 }
 int main(int argc, char** argv)
 {
-	st = argc > 1 ? std::strtoull(argv[1], 0, 10) : 1; bool thorough = argc > 2 && std::string(argv[2]) == "thorough"; int n = thorough ? 400000 : 6000;
+	st = argc > 1 ? std::strtoull(argv[1], 0, 10) : 1; bool thorough = argc > 2 && std::string(argv[2]) == "thorough"; int n = thorough ? 200000 : 6000;   /* each iteration prints about 30 cases (both spellings of the ULP functions, scalar and vector) */
 	run<float>(n); run<double>(n);
 	// the bundled Sun nextafter / nextafterf against the IEEE model, finite arguments
 	for (int i = 0; i < n; ++i) {
